@@ -653,7 +653,7 @@ fn plan_for(id: &str, thorough: bool) -> Option<Plan> {
 
 fn caps(thorough: bool) -> Duration {
     let env = std::env::var("VERIF_WALL_CAP_S").ok().and_then(|s| s.parse::<u64>().ok());
-    Duration::from_secs(env.unwrap_or(if thorough { 20 * 60 } else { 300 }))
+    Duration::from_secs(env.unwrap_or(if thorough { 12 * 60 } else { 300 }))
 }
 
 fn run_check(id: &str, tier: Option<&str>, mode: Mode) -> i32 {
